@@ -52,11 +52,14 @@ def search(chk, n):
         d = rng.choice([2, 2, 3])
         d2 = d * d
         N = rng.randint(1, 4)
-        nenv = rng.choice([1, 2, 2, 3, 0]) if it != 5 else 0        # it == 5: no environment at all (every run)
-        commuting = rng.random() < 0.5 and it != 3
+        nenv = (rng.choice([1, 2, 2, 3, 0]) if it != 7 else rng.choice([1, 2])) if it != 5 else 0        # it == 5: no environment at all (every run)
+        commuting = rng.random() < 0.5 and it not in (3, 7)
         pts = []
         for j_ in range(nenv):
-            pts.append(float_pt(rng, d, N, 3, rank3=commuting, transforms=(not commuting and (rng.random() < 0.4 or (it == 3 and j_ == 0)))))
+            # rank-3 (delta) tensors also WITH transforms (then the environments no longer commute); it == 7: such a tensor goes
+            # through a file and is used file-backed
+            tr_ = not commuting and (rng.random() < 0.4 or (it in (3, 7) and j_ == 0))
+            pts.append(float_pt(rng, d, N, 3, rank3=commuting or (tr_ and (rng.random() < 0.4 or it == 7)), transforms=tr_))
         props = [(rand_complex(rng, (d2, d2), .5), rand_complex(rng, (d2, d2), .5)) for _ in range(N)]
         rho0 = rand_complex(rng, (d, d))
         envs = [dict(mpos=[mpo_transformed(m, p.tin, p.tout) for m in p.mpos], caps=p.caps) for p in pts]
@@ -105,7 +108,7 @@ def search(chk, n):
             # every run (it == 3: a process tensor WITH transforms): one process tensor goes through a file and comes back
             # through import_process_tensor as 'simple' or 'file'
             import tempfile, os
-            j_ = 0 if it == 3 else rng.randrange(len(pts))
+            j_ = 0 if it in (3, 7) else rng.randrange(len(pts))
             how = "simple" if (it // 4) % 2 == 0 else "file"
             fn = os.path.join(tempfile.mkdtemp(prefix="c03s_"), "pt.hdf5")
             files.append(fn)
